@@ -7,11 +7,19 @@
 import Distill.Proofs.TextRender
 import Distill.Proofs.MediaRender
 import Distill.Gen.Funcs
+import Distill.Gen.Tables
 namespace Distill.RenderProps
 open Distill
 
 /-- the functions the model follows are the ones in the source (regenerated statement lists) -/
 theorem source_tie : Gen.textRenderBodies = Gen.textRenderBodiesExpected := by rfl
+
+/-- the two regular expressions of `InnerText` that `Model/TextRender.lean` spells out (`fixPunct`,
+`fixNewline`) are the ones in the source -/
+theorem innertext_regexps_tie :
+    Gen.modelledRegexps.lookup "internal/domutil.rxPunctuation" = some "\\s+([.?!,;])\\s*(\\S*)" ∧
+    Gen.modelledRegexps.lookup "internal/domutil.rxTempNewline" = some "\\s*\\|\\\\/\\|\\s*" := by
+  constructor <;> decide +kernel
 
 /-- **C02 (rendering half).** `TreeClone` neither invents, duplicates nor reorders: the clone's
 text nodes are the listed text nodes of the converter's tree, in document order. -/
